@@ -14,6 +14,7 @@ import (
 
 	"github.com/AdguardTeam/AdGuardDNS/internal/agd"
 	"github.com/AdguardTeam/AdGuardDNS/internal/backendpb"
+	"github.com/AdguardTeam/AdGuardDNS/internal/dnsmsg"
 	"github.com/AdguardTeam/AdGuardDNS/internal/profiledb"
 	"github.com/AdguardTeam/AdGuardDNS/verif/kernel"
 	"github.com/AdguardTeam/AdGuardDNS/verif/simnet"
@@ -53,6 +54,9 @@ type bProf struct {
 	mod     int64
 	autoDev bool
 	qlog    bool
+
+	// seed decides the remaining settings (see settings()).
+	seed int
 
 	// badMode gives the profile a custom-IP blocking mode without addresses,
 	// which the client must reject (the whole profile).
@@ -123,24 +127,114 @@ func (d *bDev) proto() (p *backendpb.DeviceSettings) {
 }
 
 func (p *bProf) proto() (x *backendpb.DNSProfile) {
+	sd := p.seed
 	x = &backendpb.DNSProfile{
 		DnsId:               p.id,
 		Deleted:             p.deleted,
-		FilteringEnabled:    true,
+		FilteringEnabled:    sd&1 != 0,
 		QueryLogEnabled:     p.qlog,
+		IpLogEnabled:        sd&2 != 0,
 		AutoDevicesEnabled:  p.autoDev,
-		FilteredResponseTtl: durationpb.New(10 * time.Second),
+		BlockPrivateRelay:   sd&4 != 0,
+		BlockFirefoxCanary:  sd&8 != 0,
+		BlockChromePrefetch: sd&16 != 0,
+		FilteredResponseTtl: durationpb.New(time.Duration(sd%7) * 10 * time.Second),
+		SafeBrowsing:        &backendpb.SafeBrowsingSettings{Enabled: sd&32 != 0, BlockDangerousDomains: sd&64 != 0, BlockNrd: sd&128 != 0},
+		Parental: &backendpb.ParentalSettings{
+			Enabled: sd&256 != 0, BlockAdult: sd&512 != 0, GeneralSafeSearch: sd&1024 != 0, YoutubeSafeSearch: sd&2048 != 0,
+			BlockedServices: []string{"svc_a", fmt.Sprintf("svc_%d", sd%5)},
+		},
+		RuleLists:   &backendpb.RuleListsSettings{Enabled: sd&4096 != 0, Ids: []string{"list_a", fmt.Sprintf("list_%d", sd%3)}},
+		CustomRules: []string{fmt.Sprintf("||custom%d.test^", sd%4)},
+	}
+	if sd%3 == 1 {
+		x.RateLimit = &backendpb.RateLimitSettings{Enabled: true, Rps: uint32(1 + sd%40), ClientCidr: []*backendpb.CidrRange{{Address: []byte{5, 5, 5, 0}, Prefix: 24}}}
+	}
+	if sd%4 == 2 {
+		x.Access = &backendpb.AccessSettings{
+			Enabled:              true,
+			BlocklistCidr:        []*backendpb.CidrRange{{Address: []byte{2, 2, 0, 0}, Prefix: 16}},
+			AllowlistAsn:         []uint32{uint32(sd % 1000)},
+			BlocklistDomainRules: []string{"block.test"},
+		}
 	}
 	for _, d := range p.devs {
 		x.Devices = append(x.Devices, d.proto())
 	}
-	if p.badMode {
+	switch {
+	case p.badMode:
 		x.BlockingMode = &backendpb.DNSProfile_BlockingModeCustomIp{BlockingModeCustomIp: &backendpb.BlockingModeCustomIP{}}
-	} else {
+	case sd%5 == 0:
 		x.BlockingMode = &backendpb.DNSProfile_BlockingModeNxdomain{BlockingModeNxdomain: &backendpb.BlockingModeNXDOMAIN{}}
+	case sd%5 == 1:
+		x.BlockingMode = &backendpb.DNSProfile_BlockingModeRefused{BlockingModeRefused: &backendpb.BlockingModeREFUSED{}}
+	case sd%5 == 2:
+		x.BlockingMode = &backendpb.DNSProfile_BlockingModeCustomIp{BlockingModeCustomIp: &backendpb.BlockingModeCustomIP{Ipv4: []byte{203, 0, 113, byte(sd)}}}
+	case sd%5 == 3:
+		x.BlockingMode = &backendpb.DNSProfile_BlockingModeNullIp{BlockingModeNullIp: &backendpb.BlockingModeNullIP{}}
 	}
 
 	return x
+}
+
+// settings describes, from the backend's data, what the database must hold
+// for the profile after a successful synchronisation.
+func (p *bProf) settings() string {
+	sd := p.seed
+	mode := []string{"nxdomain", "refused", fmt.Sprintf("custom[203.0.113.%d]", byte(sd)), "null", "null"}[sd%5]
+	rl := "global"
+	if sd%3 == 1 {
+		rl = fmt.Sprintf("rps=%d nets=[5.5.5.0/24]", 1+sd%40)
+	}
+	acc := "none"
+	if sd%4 == 2 {
+		acc = fmt.Sprintf("blocked=[2.2.0.0/16] allowed-asn=[%d] rules=[block.test]", sd%1000)
+	}
+
+	return fmt.Sprintf("flt=%v qlog=%v iplog=%v auto=%v relay=%v canary=%v prefetch=%v ttl=%v sb=%v/%v/%v par=%v/%v/%v/%v svcs=[svc_a svc_%d] lists=%v[list_a list_%d] custom=[||custom%d.test^] mode=%s rl=%s access=%s",
+		sd&1 != 0, p.qlog, sd&2 != 0, p.autoDev, sd&4 != 0, sd&8 != 0, sd&16 != 0, time.Duration(sd%7)*10*time.Second,
+		sd&32 != 0, sd&64 != 0, sd&128 != 0, sd&256 != 0, sd&512 != 0, sd&1024 != 0, sd&2048 != 0, sd%5,
+		sd&4096 != 0, sd%3, sd%4, mode, rl, acc)
+}
+
+// describeProfile renders the same settings from what the database returned.
+func describeProfile(p *agd.Profile) string {
+	mode := "?"
+	switch m := p.BlockingMode.(type) {
+	case *dnsmsg.BlockingModeNXDOMAIN:
+		mode = "nxdomain"
+	case *dnsmsg.BlockingModeREFUSED:
+		mode = "refused"
+	case *dnsmsg.BlockingModeNullIP:
+		mode = "null"
+	case *dnsmsg.BlockingModeCustomIP:
+		mode = fmt.Sprintf("custom%v", m.IPv4)
+	}
+	rl := "global"
+	if c := p.Ratelimiter.Config(); c.Enabled {
+		rl = fmt.Sprintf("rps=%d nets=%v", c.RPS, c.ClientSubnets)
+	}
+	acc := "none"
+	if c := p.Access.Config(); c != nil {
+		acc = fmt.Sprintf("blocked=%v allowed-asn=%v rules=%v", c.BlockedNets, c.AllowedASN, c.BlocklistDomainRules)
+	}
+	fc := p.FilterConfig
+	var svcs, lists, custom []string
+	for _, x := range fc.Parental.BlockedServices {
+		svcs = append(svcs, string(x))
+	}
+	for _, x := range fc.RuleList.IDs {
+		lists = append(lists, string(x))
+	}
+	for _, x := range fc.Custom.Rules {
+		custom = append(custom, string(x))
+	}
+
+	return fmt.Sprintf("flt=%v qlog=%v iplog=%v auto=%v relay=%v canary=%v prefetch=%v ttl=%v sb=%v/%v/%v par=%v/%v/%v/%v svcs=%v lists=%v%v custom=%v mode=%s rl=%s access=%s",
+		p.FilteringEnabled, p.QueryLogEnabled, p.IPLogEnabled, p.AutoDevicesEnabled, p.BlockPrivateRelay, p.BlockFirefoxCanary,
+		p.BlockChromePrefetch, p.FilteredResponseTTL, fc.SafeBrowsing.Enabled, fc.SafeBrowsing.DangerousDomainsEnabled,
+		fc.SafeBrowsing.NewlyRegisteredDomainsEnabled, fc.Parental.Enabled, fc.Parental.AdultBlockingEnabled,
+		fc.Parental.SafeSearchGeneralEnabled, fc.Parental.SafeSearchYouTubeEnabled, svcs, fc.RuleList.Enabled, lists, custom, mode, rl, acc)
 }
 
 // GetDNSProfiles implements the profile stream of the backend.
@@ -208,8 +302,9 @@ func (b *backend) GetDNSProfiles(req *backendpb.DNSProfilesRequest, stream grpc.
 // ---- the reference ----
 
 type mProf struct {
-	deleted bool
-	devs    []string
+	deleted  bool
+	devs     []string
+	settings string
 }
 
 type mDev struct {
@@ -232,7 +327,7 @@ func (m *dbModel) apply(full bool, sent []*bProf) {
 			// Rejected as a whole: what the database had stays.
 			continue
 		}
-		mp := &mProf{deleted: p.deleted}
+		mp := &mProf{deleted: p.deleted, settings: p.settings()}
 		for _, d := range p.devs {
 			if !d.valid() {
 				continue
@@ -331,7 +426,7 @@ func runC14(s *kernel.Sim, _ string) {
 	}
 	for i := 0; i < nProf; i++ {
 		p := &bProf{id: fmt.Sprintf("prof%d", i), mod: 1, autoDev: t.Chance(1, 2, "auto-devices"), qlog: t.Chance(1, 2, "qlog"),
-			badMode: t.Chance(1, 5, "bad-mode")}
+			badMode: t.Chance(1, 5, "bad-mode"), seed: t.Choose(1<<13, "settings")}
 		pb.profs = append(pb.profs, p)
 		for j, k := 0, t.Range(0, 3, "devices"); j < k; j++ {
 			p.devs = append(p.devs, newDev(p))
@@ -469,6 +564,12 @@ func runC14(s *kernel.Sim, _ string) {
 
 				return
 			}
+			if got, want := describeProfile(gp), m.profs[wantP].settings; got != want {
+				s.Failf("C14/backend-settings", "profile settings in the database differ from the latest synchronised backend data",
+					"profile %s:\n database %s\n backend  %s", wantP, got, want)
+
+				return
+			}
 			s.MarkNontrivial()
 		}
 	}
@@ -526,6 +627,11 @@ func runC14(s *kernel.Sim, _ string) {
 				p.devs = append(p.devs[:k:k], p.devs[k+1:]...)
 				touch(p)
 			}
+		case op == 6 && t.Chance(1, 2, "settings-change"):
+			p := kernel.Pick(t, pb.profs, "profile")
+			p.seed = t.Choose(1<<13, "settings")
+			touch(p)
+			s.Logf("backend: %s settings now %s", p.id, p.settings())
 		case op == 6:
 			p := kernel.Pick(t, pb.profs, "profile")
 			p.deleted = !p.deleted
